@@ -127,7 +127,7 @@ Theorem stdlib_order_free :
     import_seq t ms = (r1, ROk out1) -> import_seq t ms' = (r2, ROk out2) ->
     Permutation (imported string mprog r1) (imported string mprog r2)
     /\ Permutation out1 out2
-    /\ forall x s, In (x, s) (env def string (fun d => d) out1) <-> In (x, s) (env def string (fun d => d) out2).
+    /\ forall x s, In (x, s) (env def string def_names out1) <-> In (x, s) (env def string def_names out2).
 Proof.
   intros t ms ms' r1 out1 r2 out2 Hs E1 E2. unfold import_seq, g_pass in *.
   assert (Hown : forall l, own string def (use_all l) = []).
@@ -143,7 +143,7 @@ Proof.
     { eapply Permutation_trans; [exact O1|]. eapply Permutation_trans; [exact PF|].
       apply Permutation_sym. exact O2. }
     split; [rewrite A1, A2; exact P|]. split; [exact PO|].
-    intros x s. pose proof (env_perm def string (fun d => d) _ _ PO) as PE.
+    intros x s. pose proof (env_perm def string def_names _ _ PO) as PE.
     split; intro H; [eapply Permutation_in; eassumption|].
     eapply Permutation_in; [apply Permutation_sym; eassumption | exact H].
 Qed.
